@@ -1,3 +1,5 @@
+import CffiVerif.Generated.OwnershipSteps
+
 /-
 Model of the ownership / finalisation machinery of `_cffi_backend.c` (C21).
 
@@ -472,6 +474,74 @@ def State.calls (s : State) (x : ObjId) : Nat :=
   match s.objs x with
   | some o => o.calls
   | none => 0
+
+/-! ### The statement order of the C functions (regenerated from the source on every run)
+
+`Generated/OwnershipSteps.lean` lists the statements of `cdatagcp_finalize`, `cdatagcp_dealloc`,
+`cdata_exit` ... in source order.  `finRun` executes such a list on an abstract wrapper whose two
+slots are full and records, for every call of `gcp_finalize`, whether its arguments were the
+original destructor / origobj and what the wrapper looked like at that moment.  `modelReleaseRun`
+and `modelDeallocRun` say what the transition system above assumes: `opRelease` / `opFinalize`
+empty the slots (`finalizeGcp`) and only then start the activation; `opCollect` starts it after the
+wrapper is deallocated, with the values it held. -/
+
+open CffiVerif.Generated.OwnershipSteps in
+structure FinRun where
+  fieldD : Bool
+  fieldO : Bool
+  locD : Bool
+  locO : Bool
+  freed : Bool
+  /-- per call: destructor argument is the original, origobj argument is the original,
+  destructor slot still full, origobj slot still full, wrapper already deallocated -/
+  calls : List (Bool × Bool × Bool × Bool × Bool)
+  deriving DecidableEq, Repr
+
+open CffiVerif.Generated.OwnershipSteps in
+def finStep (r : FinRun) : FinStep → FinRun
+  | .copyDtor => { r with locD := r.fieldD }
+  | .copyOrig => { r with locO := r.fieldO }
+  | .nullDtor => { r with fieldD := false }
+  | .nullOrig => { r with fieldO := false }
+  | .untrack => r
+  | .dealloc => { r with freed := true }
+  | .call d o =>
+    let v (src : Src) (fld loc : Bool) : Bool :=
+      match src with
+      | .field => fld && !r.freed
+      | .loc => loc
+      | .null => false
+    { r with calls := r.calls ++ [(v d r.fieldD r.locD, v o r.fieldO r.locO, r.fieldD, r.fieldO, r.freed)] }
+
+open CffiVerif.Generated.OwnershipSteps in
+def finRun (l : List FinStep) : FinRun :=
+  l.foldl finStep { fieldD := true, fieldO := true, locD := false, locO := false, freed := false, calls := [] }
+
+/-- `ffi.release` / `tp_finalize` in the model: slots emptied first (`finalizeGcp`), then exactly one
+call, with the original destructor and origobj. -/
+def modelReleaseRun : FinRun :=
+  { fieldD := false, fieldO := false, locD := true, locO := true, freed := false,
+    calls := [(true, true, false, false, false)] }
+
+/-- deallocation in the model (`opCollect`): the wrapper is gone, then exactly one call with the
+values it held. -/
+def modelDeallocRun : FinRun :=
+  { fieldD := true, fieldO := true, locD := true, locO := true, freed := true,
+    calls := [(true, true, true, true, true)] }
+
+open CffiVerif.Generated.OwnershipSteps in
+/-- what `release` does per kind of cdata, as a table: `.owning false` and `.structptr` are the
+`CDataOwning_Type` pointer/array objects, `.frombuf`, `.gcp` -/
+def modelDispatch : RelType → ExitAct
+  | .owningPtrOrArray => .finalizeStructIfWrapper
+  | .frombuf => .bufferRelease
+  | .wrapper => .finalizeSelf
+
+open CffiVerif.Generated.OwnershipSteps in
+def sourceDispatch (t : RelType) : Option ExitAct :=
+  match release_case.lookup t with
+  | some n => exit_actions.lookup n
+  | none => none
 
 /-- `x` is reachable from the program's references. -/
 inductive Reach (s : State) : ObjId → Prop
